@@ -19,8 +19,8 @@ PLAN = {
     ),
     "C03": dict(
         quick=[("lit_finish_exit_c", dict(shuffle=8)), ("lit_foreign_finish_c", dict(cap=1000, shuffle=6)), ("lit_child_other_c", dict(cap=1000, shuffle=6)), ("par4_c", dict(shuffle=4)),
-               ("att4_c", dict(cap=800)), ("tree4_c", dict(cap=1200)), ("stress:tree4_c", dict(rounds=200, threads=6)), "burstc:9000", "extra:manyroots_c"],
-        thorough=["extra:manyroots_c", "lit_finish_exit_c", "lit_foreign_finish_c", "lit_child_other_c", "par4_c", "par5_c", "att4_c", "tree4_c", ("sim_par3_c", dict(cap=6000)), ("stress:tree4_c", dict(rounds=2000, threads=6)), "burstc:9000"],
+               ("att4_c", dict(cap=800)), ("tree4_c", dict(cap=1200)), ("stress:tree4_c", dict(rounds=200, threads=6)), "burstc:9000", "extra:manyroots_c", ("over_recover_c", dict(cap=800))],
+        thorough=["extra:manyroots_c", "over_recover_c", "lit_finish_exit_c", "lit_foreign_finish_c", "lit_child_other_c", "par4_c", "par5_c", "att4_c", "tree4_c", ("sim_par3_c", dict(cap=6000)), ("stress:tree4_c", dict(rounds=2000, threads=6)), "burstc:9000"],
         vacuity=[("lit_finish_exit_c", ["FixRecv"])],
     ),
     "C04": dict(
